@@ -109,7 +109,7 @@ func vSelfRequiring(ts []vType, root int) bool {
 func vBuildProject(n int) ([]vType, *JSchema) {
 	nf := make([]int, n)
 	for i := range nf {
-		nf[i] = zzverif.IntRange("fields", 1, zzverif.Bound("maxFields", 1, 2))
+		nf[i] = 1
 	}
 	return vBuildProjectWith(nf)
 }
@@ -163,6 +163,9 @@ func VerifC06_TwoMembers() {
 	nf := []int{2, 1}
 	if zzverif.Bool("secondTypeHasTwo") {
 		nf = []int{1, 2}
+	}
+	if zzverif.Bound("types2", 2, 3) == 3 {
+		nf = append(nf, 1) // thorough: a third type with one member
 	}
 	ts, root := vBuildProjectWith(nf)
 	vRecursionVerdict(ts, root)
